@@ -92,17 +92,22 @@ def run(ctx):
                        "link EEXIST, open EEXIST, appended to an existing file, number of SIGHUPs)")
     for k in ("published", "not_owed_checked", "fins", "fsyncs", "files_inspected", "gzip_files_with_torn_tail", "stops",
               "exit_codes", "kill_point_runs", "kill_point_fired", "kill_point_pcs_fired", "runs_with_rotation",
-              "runs_with_link_eexist", "runs_with_open_eexist", "runs_appending_to_existing_file", "stuck_after_stop",
+              "tool_fatal_exits", "runs_with_link_eexist", "runs_with_open_eexist", "runs_appending_to_existing_file", "stuck_after_stop",
               "trace_events"):
         ctx.notes[k] = R.get(k)
     for s in (R.get("samples") or [])[:4]:
         ctx.sample(s)
     if R.get("notes"):
         ctx.notes["harness_notes"] = R["notes"][:20]
+    bykey = {}
     for v in R.get("violations") or []:
-        ctx.violation("%s [options %s, stop %s%s]" % (v["what"], json.dumps(v["scenario"]["opts"]), v["scenario"]["stop"],
-                                                      " at " + v["scenario"]["inject"] if v["scenario"].get("inject") else ""),
-                      ctx.save_replay(re.sub(r"\W+", "_", v["key"]), v), key=v["key"])
+        bykey.setdefault(v["key"], []).append(v)
+    for key, vs in sorted(bykey.items()):
+        v = vs[0]
+        ctx.violation("%d run(s) of the real binary: %s [e.g. options %s, stop %s%s]" % (
+            len(vs), v["what"], json.dumps(v["scenario"]["opts"]), v["scenario"]["stop"],
+            " at " + v["scenario"]["inject"] if v["scenario"].get("inject") else ""),
+            ctx.save_replay(re.sub(r"\W+", "_", key), vs), key=key)
     incon = R.get("inconclusive") or []
     if incon:
         ctx.notes["inconclusive_scenarios"] = incon[:10]
